@@ -22,12 +22,14 @@ MAP_OPS = [["set", k] for k in KEYS] + [["del", k] for k in (0, 1.0, 2.5)] + [["
            ["get", "str"], ["in", "str"], ["pop", "str"], ["del", "none"]]
 
 BOUNDS = {
-    "quick": {"initialisers": {"values": VALS, "max_len": 4, "containers": ["list", "tuple", "iterator", "dict(map)"]},
+    "quick": {
+        "two_instances": "two SortedSet / SortedMap objects created the same way (no argument, empty, two values): changes of one are not visible in the other", "initialisers": {"values": VALS, "max_len": 4, "containers": ["list", "tuple", "iterator", "dict(map)"]},
               "set_history": {"ops": SET_OPS, "initial": SET_INITS, "len_per_initial": [5, 5, 4]},
               "map_history": {"ops": MAP_OPS, "initial": MAP_INITS, "len_per_initial": [4, 4, 3]},
               "probes": {"numeric": KEYS + [3, -0.5], "foreign": list(FOREIGN)},
               "random": {"count": 3000, "len": "8..40", "values": "ints -3..6, halves, -0.0, +-10**20, 1e300, -1e308"}},
-    "thorough": {"initialisers": {"values": VALS, "max_len": 6, "containers": ["list", "tuple", "iterator", "dict(map)"]},
+    "thorough": {
+        "two_instances": "two SortedSet / SortedMap objects created the same way (no argument, empty, two values): changes of one are not visible in the other", "initialisers": {"values": VALS, "max_len": 6, "containers": ["list", "tuple", "iterator", "dict(map)"]},
                  "set_history": {"ops": SET_OPS, "initial": SET_INITS, "len_per_initial": [5, 6, 5]},
                  "map_history": {"ops": MAP_OPS, "initial": MAP_INITS, "len_per_initial": [5, 5, 4]},
                  "probes": {"numeric": KEYS + [3, -0.5], "foreign": list(FOREIGN)},
@@ -58,6 +60,8 @@ def cases(tier, seed):
                 yield {"kind": "set-init", "init": list(init), "container": cont}
             for cont in ("pairs", "pair-iterator", "dict"):
                 yield {"kind": "map-init", "init": list(init), "container": cont}
+    for how in ("set-none", "set-empty", "set-vals", "map-none", "map-empty", "map-vals"):
+        yield {"kind": "two-instances", "how": how}
     yield {"kind": "set-init", "init": None, "container": "none"}
     yield {"kind": "map-init", "init": None, "container": "none"}
     for kind, inits, ops in (("set-history", SET_INITS, SET_OPS), ("map-history", MAP_INITS, MAP_OPS)):
@@ -300,7 +304,27 @@ def _run_map_history(case):
     return ok("sortedmap/history", trivial=not nonempty)
 
 
-_RUN = {"set-init": _run_set_init, "map-init": _run_map_init, "set-history": _run_set_history, "map-history": _run_map_history}
+def _run_two_instances(case):
+    """two containers created the same way are independent objects: a change of one is never visible in the other"""
+    from windpyutils.structures.sorted import SortedSet, SortedMap
+    mk = {"set-none": lambda: SortedSet(), "set-empty": lambda: SortedSet([]), "set-vals": lambda: SortedSet([3, 1]),
+          "map-none": lambda: SortedMap(), "map-empty": lambda: SortedMap({}), "map-vals": lambda: SortedMap({3: "c", 1: "a"})}[case["how"]]
+    a, b = mk(), mk()
+    before = list(b.items()) if case["how"].startswith("map") else list(b)
+    if case["how"].startswith("map"):
+        a[7] = "x"
+        a[2] = "y"
+        after, mine = list(b.items()), list(a.keys())
+    else:
+        a.add(7)
+        a.add(2)
+        after, mine = list(b), list(a)
+    check(after == before, "sorted/two-instances/independent", {"second": before}, {"second": after, "first": mine})
+    check(7 in mine and 2 in mine and mine == sorted(mine), "sorted/two-instances/first", "7 and 2 added, sorted", mine)
+    return ok("sorted/two-instances")
+
+
+_RUN = {"two-instances": _run_two_instances, "set-init": _run_set_init, "map-init": _run_map_init, "set-history": _run_set_history, "map-history": _run_map_history}
 
 
 def run_case(case):
